@@ -78,6 +78,17 @@ type c23Case struct {
 	Ops        []c23Op `json:"ops"`
 }
 
+func (c *c23Case) hasEBB() bool {
+	for _, op := range c.Ops {
+		for _, r := range op.Serve {
+			if r.Fixture == nSmall() {
+				return true
+			}
+		}
+	}
+	return false
+}
+
 func isBadShape(op c23Op) bool {
 	return op.Kind == "single" && (op.Shape == shEmpty || op.Shape == shNonMatch || op.Shape == shSeveral)
 }
@@ -301,7 +312,7 @@ func TestC23(t *testing.T) {
 	defer rec.Finish()
 	rec.Assume(
 		"blake2b-256 (golang.org/x/crypto) over the header item located by the harness CBOR parser is the reference block hash",
-		"bounded liveness: a call that has not returned 7 s after the server finished its answer, with the client's batch-start and block timeouts scaled to 300 ms, is reported as a hang (goroutine dump attached); a well-behaved server is given 10 s",
+		"bounded liveness: a call that has not returned 7 s after the server finished its answer, with the client's batch-start and block timeouts scaled to 300 ms, is reported as a hang (goroutine dump attached); a well-behaved server is given 10 s plus 1 s per 20 kB of served blocks",
 		"a misbehaving answer is always the last request on its connection: the client may answer misbehaviour by closing the connection",
 	)
 	maxKnownHangs := rec.Pick(1, 2)
@@ -336,16 +347,17 @@ func TestC23(t *testing.T) {
 		genEBB = false
 		cs.Ops = append(cs.Ops, last)
 		pc, ps := genPlan(rt, "client"), genPlan(rt, "server")
-		for _, op := range cs.Ops {
-			for _, r := range op.Serve {
-				if r.Fixture == nSmall() {
-					// a 650 KiB block through 1..9-byte reads would take seconds
-					// under load; keep the fragmentation coarse for these cases
-					pc = &rawpeer.SeqPlan{Chunks: []int{4096, 0, 1000}, Yields: []int{0, 1}}
-					ps = nil
-					rec.Class("case_with_ebb")
-				}
+		if cs.hasEBB() {
+			// A 650 KiB block through 1..9-byte reads or in 700-byte segments
+			// takes many seconds under load (the protocol read loop re-parses the
+			// partial message after every segment); that is performance, not
+			// this property. Keep fragmentation and segmentation coarse here.
+			pc = &rawpeer.SeqPlan{Chunks: []int{4096, 0, 1000}, Yields: []int{0, 1}}
+			ps = nil
+			for i := range cs.Ops {
+				cs.Ops[i].SegMax = 0
 			}
+			rec.Class("case_with_ebb")
 		}
 		cs.ClientPlan, cs.ServerPlan = planDesc(pc), planDesc(ps)
 		runC23(rt, rec, cs, pc, ps)
@@ -409,6 +421,15 @@ func runC23(rt tb, rec *evi.Recorder, cs c23Case, pc, ps rawpeer.Plan) {
 		return rec.Fail(rt, key, what, obj)
 	}
 
+	// liveness bound for well-behaved answers: 10 s plus 1 s per 20 kB of blocks
+	// served on the connection (fragmented reads, decoding, machine load)
+	vol := 0
+	for _, op := range cs.Ops {
+		for _, r := range op.Serve {
+			vol += len(r.get().Bytes)
+		}
+	}
+	goodBound := c23GoodBound + time.Duration(min(vol/20000, 110))*time.Second
 	wantLog := 0 // callback events expected so far
 	var desc []string
 	nontrivial := false
@@ -465,7 +486,7 @@ func runC23(rt tb, rec *evi.Recorder, cs c23Case, pc, ps rawpeer.Plan) {
 		rec.Class(op.Kind + ":" + op.Shape)
 		desc = append(desc, opDesc(op))
 
-		bound := c23GoodBound
+		bound := goodBound
 		if isBadShape(op) {
 			bound = c23HangBound
 		}
@@ -504,7 +525,7 @@ func runC23(rt tb, rec *evi.Recorder, cs c23Case, pc, ps rawpeer.Plan) {
 				return
 			}
 			wantLog += len(served) + 1
-			evs := log.waitLen(wantLog, c23GoodBound)
+			evs := log.waitLen(wantLog, goodBound)
 			if len(served) >= 2 {
 				nontrivial = true
 			}
@@ -542,7 +563,7 @@ func runC23(rt tb, rec *evi.Recorder, cs c23Case, pc, ps rawpeer.Plan) {
 				after = fmt.Sprintf("GetBlock returned err=%v only after Connection.Close()", r.err)
 			case <-time.After(2 * time.Second):
 			}
-			fail(k, fmt.Sprintf("GetBlock did not return within %v (timeouts scaled to %v) after the server answered %s; %s", bound, c23ShortTimeout, shapeWire(op), after),
+			fail(k, fmt.Sprintf("GetBlock did not return within %v (client batch-start/block timeouts %v) after the server answered %s; %s", bound, cfg.BlockTimeout, shapeWire(op), after),
 				map[string]any{"goroutines": dump})
 			return
 		}
